@@ -79,7 +79,9 @@ Inductive op :=
 | PoolChanged              (* NodePool generation bump + registrationhealth reconcile: Unknown + reset *)
 | ClassChanged             (* NodeClass generation bump + registrationhealth reconcile: Unknown + reset *)
 | Crash                    (* process restart: the in-memory buffer is lost, the API condition stays *)
-| Reconcile.               (* registrationhealth reconcile without a pool change: re-hydration only *)
+| Reconcile                (* registrationhealth reconcile without a pool change: re-hydration only *)
+| RecordSuccessConflict    (* as RecordSuccess, but the NodePool status patch (if one is issued) is rejected *)
+| RecordFailureConflict.   (* as RecordFailure, but the NodePool status patch (if one is issued) is rejected *)
 
 (* registrationhealth controller's re-hydration on an Unknown tracker *)
 Definition rehydrate (s : sys) : sys :=
@@ -104,6 +106,19 @@ Definition step (s : sys) (o : op) : sys :=
   | PoolChanged | ClassChanged => mkSys (set_status (buf s) Unknown) CUnknown
   | Crash => mkSys empty (condn s)
   | Reconcile => rehydrate s
+  (* a rejected patch makes the path return the error BEFORE the outcome is recorded; the reconcile is retried later *)
+  | RecordSuccessConflict =>
+      match tstatus (dry_run (buf s) true), condn s with
+      | Healthy, CTrue => mkSys (insert (buf s) true) (condn s)       (* no patch needed *)
+      | Healthy, _ => s                                                (* patch rejected: nothing recorded *)
+      | _, _ => mkSys (insert (buf s) true) (condn s)
+      end
+  | RecordFailureConflict =>
+      match tstatus (dry_run (buf s) false), condn s with
+      | Unhealthy, CFalse => mkSys (insert (buf s) false) (condn s)
+      | Unhealthy, _ => s
+      | _, _ => mkSys (insert (buf s) false) (condn s)
+      end
   end.
 
 Definition init : sys := mkSys empty CUnknown.
@@ -117,7 +132,8 @@ Fixpoint hydrated_hist (pending : bool) (ops : list op) : bool :=
   | Crash :: t => hydrated_hist true t
   | Reconcile :: t => hydrated_hist false t
   | (PoolChanged | ClassChanged) :: t => hydrated_hist false t
-  | (RecordSuccess | RecordFailure) :: t => negb pending && hydrated_hist pending t
+  | (RecordSuccess | RecordFailure | RecordSuccessConflict | RecordFailureConflict) :: t =>
+      negb pending && hydrated_hist pending t
   end.
 
 (* ---- tracker-level operations (what the unit-level correspondence drives) ---- *)
@@ -178,6 +194,12 @@ Definition sstep (a : list bool * cond) (o : op) : list bool * cond :=
       | [], CFalse => ([false; false], c)
       | _, _ => (w, c)
       end
+  | RecordSuccessConflict =>
+      let w' := lastn cap (w ++ [true]) in
+      if failures_fill_half w' then (w', c) else match c with CTrue => (w', c) | _ => (w, c) end
+  | RecordFailureConflict =>
+      let w' := lastn cap (w ++ [false]) in
+      if failures_fill_half w' then match c with CFalse => (w', c) | _ => (w, c) end else (w', c)
   end.
 
 Definition srun (ops : list op) : list bool * cond := fold_left sstep ops ([], CUnknown).
